@@ -130,6 +130,22 @@ add("C02", True, "exploration",
     "Termination is only watched by a 120 s alarm (inconclusive, exit 2).",
     "DESIGN.md section 5, C02")
 
+add("C01", True, "exploration",
+    "Hypothesis-generated end-to-end problems through all three entry "
+    "points, oracle = multicast packet simulator with default routing",
+    "Generated graphs/machines/constraints/keys are pushed through place, "
+    "allocate, route, table generation and minimisation (by hand with every "
+    "placer/method/target choice, through place_and_route_wrapper with a "
+    "generated SystemInfo incl. busy cores and tiny free router blocks, and "
+    "through the deprecated wrapper); then a packet per net (X bits filled "
+    "four ways) is simulated over the resulting tables: delivered exactly "
+    "once to every allocated sink core or constrained exit, nowhere else, "
+    "only over working links between working chips, never dropped, never "
+    "circulating.",
+    "Trusted: vf/oracle/mcrouter.py packet semantics (first match, default "
+    "routing). Machines up to 8x8 (quick) / 16x16 (thorough).",
+    "DESIGN.md section 5, C01")
+
 
 def main():
     checks = []
